@@ -149,11 +149,15 @@ def body_E1(ctx):
     levels = [[1], [2, 3, 1], [10, 1]][: sh.get("levels", 3)]
     stamps = TIMESTAMPS[: sh.get("stamps", 5)]
     m = {"task_uuid": "8c668cde-235b", "task_level": levels[ctx.choose(len(levels), "level")], "timestamp": stamps[ctx.choose(len(stamps), "timestamp")]}
-    kind = ctx.choose(3, "message kind")
+    kind = ctx.choose(5, "message kind")
     if kind == 0:
         m["message_type"] = "app:msg"
     elif kind == 1:
         m.update(action_type="app:act", action_status=["started", "succeeded", "failed"][ctx.choose(3, "status")])
+    elif kind == 3:
+        m.update(action_type="", action_status="started")  # start_action() without a type
+    elif kind == 4:
+        m["message_type"] = ""  # Message.log() without a type
     nfields = ctx.choose(sh.get("max_fields", 1) + 1, "number of fields")
     names_left = list(FIELD_NAMES)
     labels = []
@@ -194,6 +198,7 @@ def body_E1(ctx):
     ctx.nontrivial(tuple(ctx.trace))
     if nfields >= 1 and kind == 1:
         ctx.reached("action-with-field")
+    kind = 1 if kind == 3 else kind
     ctx.sample({"message_keys": sorted(m), "fields": labels, "compact": c[:160]})
 
 
@@ -307,7 +312,7 @@ OBLIGATIONS = [
         shards=lambda tier: [dict(b, prefix=p) for b in ([{"max_fields": 1}] if tier == "quick" else [{"max_fields": 1}, {"max_fields": 2, "levels": 2, "stamps": 2}]) for p in enumerate_prefixes(body_E1, "X", {}, b, 2 if tier == "quick" else 3)],
         twin=[{"max_fields": 1, "twin_label": "action-with-field"}],
         timeout={"quick": 100, "thorough": 900},
-        bounds={"quick": "3 task levels x 5 timestamps x {message, action x 3 statuses, untyped} x <= 1 extra field (7 names x 8 corner values)", "thorough": "additionally <= 2 extra fields with 2 levels x 2 timestamps"},
+        bounds={"quick": "3 task levels x 5 timestamps x {message, action x 3 statuses, no type field, empty action_type, empty message_type} x <= 1 extra field (7 names x 8 corner values)", "thorough": "additionally <= 2 extra fields with 2 levels x 2 timestamps"},
     ),
     Ob(
         "E2",
